@@ -219,6 +219,7 @@ type msess struct {
 
 type stats struct {
 	multiSess, unknown, big bool
+	manyPerTick             bool // one tick had more than 56 URRs to report (several netlink requests)
 	takeover                bool
 	reports                 int
 }
@@ -481,6 +482,13 @@ func run(c Case) (v *vcore.Violation, stt stats) {
 			if len(exp) >= 2 {
 				stt.multiSess = true
 			}
+			nrep := 0
+			for _, ws := range exp {
+				nrep += len(ws)
+			}
+			if nrep > 56 {
+				stt.manyPerTick = true
+			}
 			f.D.G.VerifPerio().VerifTick(time.Duration(periodsSec[ev.Per]) * time.Second)
 			if err := f.PerioBarrier(); err != nil {
 				return vcore.Violatef("perio-stuck", "%s: %v", what, err), stt
@@ -679,8 +687,22 @@ func genVals(t *rapid.T) Vals {
 func gen(t *rapid.T) Case {
 	var c Case
 	ns := rapid.IntRange(1, 3).Draw(t, "nsess")
+	// one case in 16: so many sessions with periodic URRs of one period that a tick's usage query no longer fits one netlink
+	// request (56 reports per answer): the reports of one tick then come from several requests
+	large := rapid.IntRange(0, 15).Draw(t, "large") == 0
+	if large {
+		ns = rapid.IntRange(19, 27).Draw(t, "nsess_large")
+	}
 	for i := 0; i < ns; i++ {
 		sp := SessSpec{Node: rapid.IntRange(0, 1).Draw(t, "node"), CP: uint64(0x50 + rapid.IntRange(0, 1).Draw(t, "cp"))}
+		if large {
+			sp.CP = uint64(0x100 + i)
+			for j := 0; j < 3; j++ {
+				sp.URRs = append(sp.URRs, URRSpec{ID: uint32(j + 1), Method: uint8(rapid.IntRange(0, 7).Draw(t, "method")), MNOP: rapid.Bool().Draw(t, "mnop"), Perio: rapid.SampledFrom([]int{1, 1, 1, 1, 1, 1, 0, 2}).Draw(t, "perio")})
+			}
+			c.Sess = append(c.Sess, sp)
+			continue
+		}
 		// CP SEIDs unique per peer
 		for _, o := range c.Sess {
 			if o.Node == sp.Node && o.CP == sp.CP {
@@ -717,6 +739,10 @@ func gen(t *rapid.T) Case {
 			Ev{Kind: "query", Sess: 0, URRs: []uint32{1}, Vals: genVals(t)})
 	}
 	n := rapid.IntRange(1, 12).Draw(t, "nev")
+	if large {
+		c.Evs = append(c.Evs, Ev{Kind: "tick", Per: 0, Vals: genVals(t)})
+		n = rapid.IntRange(0, 4).Draw(t, "nev_large")
+	}
 	for i := 0; i < n; i++ {
 		k := rapid.SampledFrom([]string{"mcast", "mcast", "mcast", "mcast", "query", "query", "remove", "remove", "create", "create", "update", "rmpdr", "rmboth", "del", "tick", "tick", "takeover"}).Draw(t, "kind")
 		ev := Ev{Kind: k, Sess: rapid.IntRange(0, ns-1).Draw(t, "sess"), Vals: genVals(t)}
@@ -772,6 +798,9 @@ func brief(c Case) any {
 func account(c Case, s stats) {
 	vcore.E.Eval()
 	vcore.E.ClassN("usage_reports_expected", int64(s.reports))
+	if s.manyPerTick {
+		vcore.E.Class("tick_with_more_than_56_reports")
+	}
 	if s.multiSess {
 		vcore.E.Class("batch_spanning_2+_sessions")
 	}
